@@ -1142,3 +1142,87 @@ Proof.
       destruct H as [H|[]]. left. exact H.
     + right. destruct l; cbn; try exact H. destruct (Z.eqb m m0); [right|]; exact H.
 Qed.
+
+(* ---- Aggregate interleaved with other greenlets' updates ------------------------------------- *)
+Lemma exec_app : forall cap a b st, exec cap st (a ++ b) = exec cap (exec cap st a) b.
+Proof. intros cap a. induction a as [|l r IH]; intros b st; cbn; [reflexivity|apply IH]. Qed.
+
+Lemma alookup_nodup_in : forall {V} (l : list (Z * V)) m v,
+  NoDup (map fst l) -> In (m, v) l -> alookup Z.eqb m l = Some v.
+Proof.
+  intros V l m v. induction l as [|[m' v'] r IH]; intros Hn Hin; [destruct Hin|]. cbn in *.
+  inversion Hn as [|x y Hx Hy]; subst. destruct Hin as [E|Hin].
+  - inversion E; subst. rewrite Z.eqb_refl. reflexivity.
+  - destruct (Z.eqb m m') eqn:E; [|apply IH; assumption].
+    apply Z.eqb_eq in E. subst m'. exfalso. apply Hx. apply (in_map fst) in Hin. exact Hin.
+Qed.
+
+Lemma step_data_nodup : forall cap st l, NoDup (map fst (st_data st)) -> NoDup (map fst (st_data (fst (step cap st l)))).
+Proof.
+  intros cap st l H. unfold step. destruct (label_metric l) as [m|].
+  - destruct (series_step cap (st_now st) l (get_series st m)) as [srcs' o]. destruct o; cbn; try exact H.
+    apply (NoDup_aset _ Zeqb_spec). exact H.
+  - destruct l; exact H.
+Qed.
+
+Lemma exec_data_nodup : forall cap ops st, NoDup (map fst (st_data st)) -> NoDup (map fst (st_data (exec cap st ops))).
+Proof.
+  intros cap ops. induction ops as [|l r IH]; intros st H; cbn; [exact H|]. apply IH. apply step_data_nodup. exact H.
+Qed.
+
+(* without concurrent updates the interleaved Aggregate is the atomic one *)
+Lemma aggregate_il_nil_gen : forall cap sel now pcts types st l,
+  (forall m srcs, In (m, srcs) l -> get_series st m = srcs) ->
+  aggregate_il cap sel now pcts types (map fst l) st [] = (st, aggregate sel now pcts types l).
+Proof.
+  intros cap sel now pcts types st l. induction l as [|[m srcs] r IH]; intros H; cbn; [reflexivity|].
+  assert (Hr : forall m0 srcs0, In (m0, srcs0) r -> get_series st m0 = srcs0) by (intros; apply H; right; assumption).
+  destruct (alookup Z.eqb m types) as [ty|]; [|apply IH; exact Hr].
+  rewrite (H m srcs (or_introl eq_refl)). destruct (agg_metric sel now pcts ty srcs) as [x|e]; cbn; [|reflexivity].
+  rewrite (IH Hr). reflexivity.
+Qed.
+
+Lemma aggregate_il_nil : forall cap sel now pcts types st,
+  NoDup (map fst (st_data st)) ->
+  aggregate_il cap sel now pcts types (map fst (st_data st)) st [] = (st, aggregate sel now pcts types (st_data st)).
+Proof.
+  intros cap sel now pcts types st H. apply aggregate_il_nil_gen. intros m srcs Hin.
+  unfold get_series. rewrite (alookup_nodup_in _ _ _ H Hin). reflexivity.
+Qed.
+
+(* whatever Aggregate reports for a metric was computed from that metric's series after some prefix
+   of the concurrent batches *)
+Lemma aggregate_il_prefix : forall cap sel now pcts types names st sched st' out m ty per,
+  aggregate_il cap sel now pcts types names st sched = (st', ROk out) ->
+  alookup Z.eqb m types = Some ty -> alookup Z.eqb m out = Some per ->
+  exists j, (j <= length sched)%nat /\
+    agg_metric sel now pcts ty (get_series (exec cap st (concat (firstn j sched))) m) = ROk per.
+Proof.
+  intros cap sel now pcts types names. induction names as [|m' r IH]; intros st sched st' out m ty per H Hty Hl; cbn in H.
+  - inversion H; subst. discriminate.
+  - destruct (alookup Z.eqb m' types) as [ty'|] eqn:Et; [|apply (IH _ _ _ _ _ _ _ H Hty Hl)].
+    set (st1 := match sched with b :: _ => exec cap st b | [] => st end) in *.
+    destruct (agg_metric sel now pcts ty' (get_series st1 m')) as [x|e] eqn:Ex; [|inversion H].
+    destruct (aggregate_il cap sel now pcts types r st1 (tl sched)) as [st2 rest] eqn:Er.
+    destruct rest as [xs|e]; cbn in H; inversion H; subst st' out. cbn in Hl.
+    destruct (Z.eqb m m') eqn:E.
+    + apply Z.eqb_eq in E. subst m'. inversion Hl; subst per. rewrite Hty in Et. inversion Et; subst ty'.
+      destruct sched as [|b bs].
+      * exists 0%nat. split; [cbn; lia|]. cbn. exact Ex.
+      * exists 1%nat. split; [cbn; lia|]. cbn [firstn concat]. rewrite app_nil_r. exact Ex.
+    + destruct (IH _ _ _ _ _ _ _ Er Hty Hl) as (j & Hj & Hp). destruct sched as [|b bs].
+      * exists 0%nat. split; [cbn; lia|]. cbn in Hp. rewrite firstn_nil in Hp. cbn in Hp. cbn. exact Hp.
+      * exists (S j). split; [cbn in *; lia|]. cbn [firstn concat]. rewrite exec_app. exact Hp.
+Qed.
+
+Lemma key_present_dec : forall (sel : source -> key) k (srcs : series),
+  (exists s, In s (keys srcs) /\ sel s = k) \/ (forall s, In s (keys srcs) -> sel s <> k).
+Proof.
+  intros sel k srcs. induction srcs as [|[s c] r IH].
+  - right. intros s [].
+  - destruct (key_eqb (sel s) k) eqn:E.
+    + apply key_eqb_spec in E. left. exists s. split; [left; reflexivity|exact E].
+    + destruct IH as [(s0 & Hin & Hk)|Hno].
+      * left. exists s0. split; [right; exact Hin|exact Hk].
+      * right. intros s0 [<-|Hin]; [|apply Hno; exact Hin]. cbn. intros Hk. rewrite Hk, (eqb_refl _ key_eqb_spec) in E. discriminate.
+Qed.
